@@ -19,7 +19,7 @@ type vNode struct {
 	color  bool
 	utc    int
 	layout string
-	nattrs int
+	attrs  []vKV // own attributes in order (key, integer value)
 	skip   int
 	nctx   int
 	wr     io.Writer // nil = never given a writer
@@ -40,9 +40,15 @@ func vCheckTree(ns []vNode) {
 		}
 		vAssert(l.Root() == ns[root].l, "C10: Root agrees with the creation history")
 		vAssert(l.Level() == n.level, "C10: level is what the operations on this logger denote (no other logger changed it)")
-		vAssert(l.JSONMode() == n.json && l.ColorMode() == n.color, "C10: format is what the operations on this logger denote")
-		vAssert(l.modeUTC == n.utc && l.timeLayout == n.layout, "C10: UTC mode and time layout are this logger's own")
-		vAssert(len(l.attrs) == n.nattrs, "C10: attributes are this logger's own")
+		vAssert(vAnd(l.JSONMode() == n.json, l.ColorMode() == n.color), "C10: format is what the operations on this logger denote")
+		vAssert(vAnd(l.modeUTC == n.utc, l.timeLayout == n.layout), "C10: UTC mode and time layout are this logger's own")
+		vAssert(len(l.attrs) == len(n.attrs), "C10: attributes are this logger's own")
+		for j, kv := range n.attrs {
+			if j < len(l.attrs) {
+				v, _ := l.attrs[j].Value().(int)
+				vAssert(vAnd(l.attrs[j].Key() == kv.k, v == kv.v), "C10: attributes are this logger's own (no other logger's operation rewrote them)")
+			}
+		}
 		vAssert(l.Skip() == n.skip, "C10: skip count is this logger's own")
 		vAssert(len(l.contextKeys) == n.nctx, "C10: context keys are this logger's own")
 		if n.wr == nil {
@@ -80,11 +86,13 @@ func VH_C10() {
 	ns := []vNode{{l: root, parent: -1, name: "root", level: WarnLevel, color: true}}
 	rec := &vRec{}
 	steps := vParam("steps", 2)
+	shared := make(Attrs, 1, 4)
+	shared[0] = NewAttr("s", 7)
 	levels := []Level{InfoLevel, ErrorLevel, TraceLevel - 1} // (Debug/Trace switch process-wide modes: documented side effect, excluded here)
 	for k := 0; k < steps; k++ {
 		x := vChoose(len(ns))
 		X := ns[x].l
-		op := vChoose(21)
+		op := vChoose(23)
 		// child-creating operations: child starts with the receiver's level and format only
 		newChild := func(c *Entry) int {
 			for i := range ns {
@@ -177,14 +185,14 @@ func VH_C10() {
 			ret = X.SetTimeFormat(time.Stamp)
 			ns[t].layout = time.Stamp
 		case 11:
-			ret = X.WithAttrs(NewAttr("k", 1))
+			ret = X.WithAttrs(NewAttr("k", 10*k+1))
 			withOp = true
 			vAssert(isNew(ret), "C10: With... returns a newly created logger")
 			t = newChild(ret)
-			ns[t].nattrs++
+			ns[t].attrs = append(ns[t].attrs, vKV{"k", 10*k + 1})
 		case 12:
-			ret = X.Set("k", 1, "j", 2)
-			ns[t].nattrs += 2
+			ret = X.Set("k", 10*k+2, "j", 10*k+3)
+			ns[t].attrs = append(ns[t].attrs, vKV{"k", 10*k + 2}, vKV{"j", 10*k + 3})
 		case 13:
 			n := vChoose(3)
 			want := fmt.Sprintf("c/%s[%d]", ns[x].name, n)
@@ -235,6 +243,16 @@ func VH_C10() {
 		case 20:
 			// lookups only
 			ret = X
+		case 21:
+			// a prepared attribute set with spare capacity, handed to several loggers
+			ret = X.SetAttrs1(shared)
+			ns[t].attrs = append(ns[t].attrs, vKV{"s", 7})
+		case 22:
+			ret = X.WithAttrs1(shared)
+			withOp = true
+			vAssert(isNew(ret), "C10: With... returns a newly created logger")
+			t = newChild(ret)
+			ns[t].attrs = append(ns[t].attrs, vKV{"s", 7})
 		}
 		if withOp {
 			vAssert(ret != X, "C10: With... leaves the receiver untouched and returns another logger")
@@ -242,6 +260,7 @@ func VH_C10() {
 			vAssert(ret == X, "C10: Set... returns the receiver")
 		}
 		vCheckTree(ns)
+		vAssert(vAnd(len(shared) == 1, shared[0].Key() == "s"), "C10: the caller's prepared attributes are left as given")
 	}
 	vCheckTree(ns)
 	// lookups on every logger
@@ -309,4 +328,129 @@ func VH_C10D() {
 	l := New("n").(*logimp).Entry
 	vAssert(l.Parent() == nil && l.Level() == L && l.ColorMode() && !l.JSONMode(), "C10: package-level New: detached, colored, at the package's current default level")
 	vCover("C10D:done")
+}
+
+// VH_C10S: isolation of attributes between loggers that were given the SAME
+// prepared attribute set (with spare capacity) - the tree starts with two
+// children and one option-built logger sharing it; then attribute operations
+// on arbitrary loggers; every logger's attribute content is compared after
+// every step.
+func VH_C10S() {
+	vProduction()
+	shared := make(Attrs, 1, 4)
+	shared[0] = NewAttr("s", 7)
+	root := New("root").(*logimp).Entry
+	a := root.WithAttrs1(shared)
+	b := root.WithAttrs1(shared)
+	c := New("c", WithAttrs1(shared)).(*logimp).Entry
+	lv, js, cl := root.Level(), root.JSONMode(), root.ColorMode()
+	ns := []vNode{
+		{l: root, parent: -1, name: "root", level: lv, json: js, color: cl},
+		{l: a, parent: 0, name: a.Name(), level: lv, json: js, color: cl, attrs: []vKV{{"s", 7}}},
+		{l: b, parent: 0, name: b.Name(), level: lv, json: js, color: cl, attrs: []vKV{{"s", 7}}},
+		{l: c, parent: -1, name: "c", level: c.Level(), json: c.JSONMode(), color: c.ColorMode(), attrs: []vKV{{"s", 7}}},
+	}
+	vCheckTree(ns)
+	steps := vParam("steps", 2)
+	for k := 0; k < steps; k++ {
+		x := vChoose(len(ns))
+		X := ns[x].l
+		switch vChoose(4) {
+		case 0:
+			X.SetAttrs(NewAttr("k", 10*k+1))
+			ns[x].attrs = append(ns[x].attrs, vKV{"k", 10*k + 1})
+		case 1:
+			X.Set("k", 10*k+2, "j", 10*k+3)
+			ns[x].attrs = append(ns[x].attrs, vKV{"k", 10*k + 2}, vKV{"j", 10*k + 3})
+		case 2:
+			X.SetAttrs1(shared)
+			ns[x].attrs = append(ns[x].attrs, vKV{"s", 7})
+		case 3:
+			ch := X.WithAttrs(NewAttr("w", 10*k+4))
+			ns = append(ns, vNode{l: ch, parent: x, name: ch.Name(), level: ns[x].level, json: ns[x].json, color: ns[x].color,
+				attrs: []vKV{{"w", 10*k + 4}}})
+		}
+		vCheckTree(ns)
+		vAssert(vAnd(len(shared) == 1, shared[0].Key() == "s"), "C10: the caller's prepared attributes are left as given")
+	}
+	vCover("C10S:done")
+}
+
+// VH_C10I: the inductive form of isolation. A fixed tree root -> a -> b and
+// root -> c whose every logger has ARBITRARY settings (symbolic level, any
+// format state and UTC mode as solver variables; layout, attributes, skip,
+// context keys and writer from two profiles per logger), assigned directly to
+// the fields; ONE operation on one logger; every other logger must be exactly
+// as before and the target must be what the operation denotes.
+func VH_C10I() {
+	vProduction()
+	rec := &vRec{}
+	root := New("root").(*logimp).Entry
+	a := root.New("a")
+	b := a.New("b")
+	c := root.New("c")
+	ls := []*Entry{root, a, b, c}
+	parents := []int{-1, 0, 1, 0}
+	ns := make([]vNode, len(ls))
+	for i, l := range ls {
+		n := vNode{l: l, parent: parents[i], name: l.Name()}
+		n.level = Level(vInt())
+		vAssume(vAnd(n.level != DebugLevel, n.level != TraceLevel))
+		n.json, n.color = vBool(), vBool()
+		vAssume(vNot(vAnd(n.json, n.color)))
+		n.utc = int(vInt())
+		vAssume(vAnd(n.utc >= 0, n.utc <= 2))
+		if vBool() { // profile
+			n.layout, n.skip, n.nctx = time.Kitchen, 1, 1
+			n.attrs = []vKV{{"p", 100 + i}}
+			l.attrs = append(l.attrs, NewAttr("p", 100+i))
+			l.contextKeys = append(l.contextKeys, "ck")
+			w := &recW{i, rec}
+			l.SetWriter(w)
+			n.wr = w
+		}
+		l.level, l.useJSON, l.useColor, l.modeUTC, l.timeLayout, l.extraFrames = n.level, n.json, n.color, n.utc, n.layout, n.skip
+		ns[i] = n
+	}
+	vCheckTree(ns)
+	x := vChoose(len(ls))
+	X := ns[x].l
+	var ret *Entry
+	switch vChoose(9) {
+	case 0:
+		lv := []Level{InfoLevel, ErrorLevel}[vChoose(2)]
+		ret = X.SetLevel(lv)
+		ns[x].level = lv
+	case 1:
+		bv := vBool()
+		ret = X.SetJSONMode(bv)
+		ns[x].json, ns[x].color = bv, vAnd(ns[x].color, vNot(bv))
+	case 2:
+		bv := vBool()
+		ret = X.SetColorMode(bv)
+		ns[x].json, ns[x].color = false, bv
+	case 3:
+		ret = X.SetUTCMode(false)
+		ns[x].utc = 1
+	case 4:
+		ret = X.SetTimeFormat(time.Stamp)
+		ns[x].layout = time.Stamp
+	case 5:
+		ret = X.SetAttrs(NewAttr("n", 1))
+		ns[x].attrs = append(ns[x].attrs, vKV{"n", 1})
+	case 6:
+		X.SetSkip(2)
+		ret = X
+		ns[x].skip = 2
+	case 7:
+		ret = X.ResetContextKeys()
+		ns[x].nctx = 0
+	case 8:
+		w := &recW{9, rec}
+		ret = X.SetWriter(w)
+		ns[x].wr = w
+	}
+	vAssert(ret == X, "C10: Set... returns the receiver")
+	vCheckTree(ns)
+	vCover("C10I:done")
 }
